@@ -463,6 +463,40 @@ def ellipsis_bracket_mismatch_items(rng, n):
     return items
 
 
+def handwritten_items(rng, n):
+    """shorthand corners that the generated trees do not reach: (1) an un-bracketed reduction whose input holds a number and whose
+    output holds a number of the same value - every number is an axis of its own, so the input's one is reduced like any axis the
+    output lacks; (2) keepdims=True with several brackets written next to each other - one unit axis per written bracket, as in the
+    documented spelling with parentheses"""
+    items = []
+    for _ in range(n):
+        a, b, k = rng.choice([2, 3]), rng.choice([2, 4]), rng.choice([2, 3, 5])
+        op = rng.choice(["sum", "max", "prod"])
+        x = np.arange(a * b * k).reshape(a, b, k) % 7
+        which = rng.random()
+        if which < 0.15:
+            # (3) a number inside the bracket of an operation that keeps the shape (the output is the input's text): a number is an axis
+            op2 = rng.choice(["softmax", "flip", "sort", "log_softmax"])
+            xf = (np.arange(a * b * k).reshape(a, b, k) % 7).astype("float64")
+            c = gencalls.Call("preserve", op2, [], [], [xf], desc=f"a b [{k}]")
+            items.append((c, "number_in_bracket_of_shape_preserving_operation", f"a b [{k}]", {}, "a b [c]", {"c": k}))
+        elif which < 0.35:
+            c = gencalls.Call("reduce", op, [], [], [x], desc=f"a b {k} -> a {k}")
+            items.append((c, "automark_number_on_both_sides", f"a b {k} -> a {k}", {}, f"a [b] [{k}] -> a {k}", {}))
+        elif which < 0.55:
+            x2 = np.arange(a * k * b).reshape(a * k, b) % 7
+            c = gencalls.Call("reduce", op, [], [], [x2], desc=f"(a {k}) b -> a {k}")
+            items.append((c, "automark_number_on_both_sides", f"(a {k}) b -> a {k}", {}, f"(a [{k}]) [b] -> a {k}", {}))
+        else:
+            d = rng.choice([1, 2])
+            x4 = np.arange(a * b * k * d).reshape(a, b, k, d) % 5
+            lay = rng.choice([("a [b] [c] d", "a ([b]) ([c]) d"), ("[a] [b] c d", "([a]) ([b]) c d"), ("a b [c] [d]", "a b ([c]) ([d])"),
+                              ("[a] [b] [c] d", "([a]) ([b]) ([c]) d")])
+            c = gencalls.Call("reduce", op, [], [], [x4], desc=lay[0])
+            items.append((c, "keepdims_adjacent_written_brackets", lay[0], {"keepdims": True}, lay[1], {}))
+    return items
+
+
 def make_items(rng, n):
     items = []
     tries = 0
@@ -477,7 +511,7 @@ def make_items(rng, n):
         if p is None:
             continue
         items.append((c,) + p)
-    return items + ellipsis_implicit_items(rng, max(8, n // 25)) + sized_ellipsis_items(rng, max(8, n // 25)) + number_nondividing_items(rng, max(8, n // 25)) + repeated_group_number_items(rng, max(12, n // 25)) + ellipsis_bracket_mismatch_items(rng, max(8, n // 40))
+    return items + ellipsis_implicit_items(rng, max(8, n // 25)) + sized_ellipsis_items(rng, max(8, n // 25)) + number_nondividing_items(rng, max(8, n // 25)) + repeated_group_number_items(rng, max(12, n // 25)) + ellipsis_bracket_mismatch_items(rng, max(8, n // 40)) + handwritten_items(rng, max(12, n // 25))
 
 
 def run(ctx):
